@@ -97,14 +97,14 @@ theorem byte_resync (step : LinkSt → ByteItem → LinkSt × Option Out)
     obtain ⟨x, _, rfl⟩ := List.mem_map.mp hr
     exact ⟨fun f hf => fromUsart_wf x f hf, fromUsart_no_panic x⟩) trivial).2
 
-theorem serial_resync (segs : List Seg) (hok : ∀ sg ∈ segs, sg.Ok) (junk : List (List UInt8)) (a b : Packet)
+theorem serial_resync_raw (segs : List Seg) (hok : ∀ sg ∈ segs, sg.Ok) (junk : List (List UInt8)) (a b : Packet)
     (ha : a.data.length ≤ 28672) (hb : b.data.length ≤ 28672)
     (hs : Seg.bodies segs = junk ++ usartBodies a ++ usartBodies b) :
-    ∃ outsJ outs, emitsOf (serialPolls LinkSt.init (segs.flatMap Seg.items)) = (outsJ ++ outs).map .emit ∧
+    ∃ outsJ outs, emitsOf (serialPollsRaw LinkSt.init (segs.flatMap Seg.items)) = (outsJ ++ outs).map .emit ∧
       Emit.panic ∉ outsJ ∧ ProbeOutcome a b outs :=
   byte_resync serialStep serialStep_byte (fun _ => rfl) segs hok junk a b ha hb hs
 
-#print axioms serial_resync
+#print axioms serial_resync_raw
 #print axioms usart_resync
 #print axioms can_resync
 end Ross
